@@ -37,6 +37,20 @@ def run(ctx):
     ctx.rule("OPTIONS", "N-1 cases run with pf_options_nminus1 (sequential fallback, worker and its partial binding), the base case with "
                         "pf_options; every case list skips elements that are out of service; the pool size is n_procs")
     cg.rule_options(ctx, "OPTIONS", fi, worker=fw)
+    ctx.rule("SETUP", "a recycle option of the caller is forced off; cause_element is an object array; the write_to_net loop writes "
+                      "every monitored table; cause_index is only compared with the index of the outaged table (directly, or under "
+                      "element == cause_element); a chunk size handed to the pool is at least 1")
+    cg.rule_setup(ctx, "SETUP", fi)
+    if cg.rule_cause_index(ctx, "SETUP", fu) < 2:
+        ctx.fail("_update_contingency_results_parallel: fewer than 2 comparisons with cause_index found")
+    for c in calls_in(fi.node):
+        if isinstance(c.func, ast.Attribute) and c.func.attr in ("map", "starmap", "imap"):
+            cs = next((k.value for k in c.keywords if k.arg == "chunksize"), c.args[2] if len(c.args) > 2 else None)
+            ok = cs is None or (isinstance(cs, ast.Constant) and isinstance(cs.value, int) and cs.value >= 1) or \
+                (isinstance(cs, ast.Call) and ast.unparse(cs.func) == "max" and any(isinstance(a, ast.Constant) and a.value == 1 for a in cs.args))
+            ctx.ob("SETUP", f"{M}::run_contingency_parallel::chunksize", ok,
+                   "default chunk size" if cs is None else f"chunksize={ast.unparse(cs)}" if ok else
+                   f"chunksize={ast.unparse(cs)} can be 0 (fewer cases than processes): Pool.map then returns no results for the cases", fi.loc(c))
     pools = [c for c in calls_in(fi.node) if (call_name(c) or "").endswith("Pool")]
     for c in pools:
         kw = {k.arg: ast.unparse(k.value) for k in c.keywords if k.arg}
@@ -82,6 +96,10 @@ def variants(repo):
     return [
         V("parallel task list without in-service filter", p, lambda s: s.replace('        tasks = []\n        for element, val in nminus1_cases.items():\n            for i in val["index"]:\n                if net[element].at[i, "in_service"]:\n                    tasks.append((element, i))\n', '        tasks = [(element, i) for element, val in nminus1_cases.items() for i in val["index"]]\n', 1), "case-filter"),
         V("worker bound to the base-case options", p, lambda s: s.replace("def _run_single_contingency(contingency_case, net, pf_options_nminus1,", "def _run_single_contingency(contingency_case, net, pf_options,", 1).replace("contingency_evaluation_function(net_copy, **pf_options_nminus1, **kwargs)", "contingency_evaluation_function(net_copy, **pf_options, **kwargs)", 1).replace("net=net, pf_options_nminus1=pf_options_nminus1,", "net=net, pf_options=pf_options,", 1), "worker"),
+        V("own-outage exclusion without the type test", p, in_function("_update_contingency_results_parallel", replace_once("                    if parallel_results and element == cause_element:\n                        valid = valid &", "                    if parallel_results:\n                        valid = valid &")), "cause-index"),
+        V("overload flag located in the affected table", p, in_function("_update_contingency_results_parallel", replace_once('contingency_results[cause_element]["index"] == cause_index] = True', 'contingency_results[element]["index"] == cause_index] = True')), "cause-index"),
+        V("chunk size can be zero", p, replace_once("results_list = pool.map(worker_func, tasks)", "results_list = pool.map(worker_func, tasks, chunksize=len(tasks) // n_procs)"), "chunksize"),
+        V("twin: chunk size at least one", p, replace_once("results_list = pool.map(worker_func, tasks)", "results_list = pool.map(worker_func, tasks, chunksize=max(1, len(tasks) // n_procs))"), None),
         V("pool size capped by the number of cases", p, replace_once("mp.Pool(processes=n_procs)", "mp.Pool(processes=min(n_procs, len(tasks)))"), "pool-size"),
         Variant("parallel mask starts from all true", "pandapower/contingency/contingency_parallel.py", in_function("_update_contingency_results_parallel", lambda s: s.replace('                    where_mask = net[element]["in_service"].values\n                    if parallel_results and element == cause_element:', '                    where_mask = np.ones(len(val), dtype=bool) if parallel_results else net[element]["in_service"].values\n                    if parallel_results and element == cause_element:', 1)), "where-in-service:parallel"),
         V("parallel branch keeps own outage", p, in_function("_update_contingency_results_parallel", lambda s: s.replace('                        where_mask = where_mask & (contingency_results[element]["index"] != cause_index)\n', '                        pass\n', 1)), "where-own-outage"),
